@@ -353,10 +353,48 @@ def rw_R4_for_desugar(text, which, site, log):
         expr = text[toks[j + 1].start:toks[bo].start].strip()
         bc = match_close(toks, bo)
         body = text[toks[bo].start:toks[bc].end]
-        new = ('let mut vit_%d = %s; %sloop { match vit_%d.next() { Some(%s) => %s, None => { break; } } }'
-               % (n, expr, label, n, pat, body))
+        men = re.match(r'^(.*)\.enumerate\(\)$', expr, re.S)
+        mpat = re.match(r'^\(\s*(\w+)\s*,\s*(.+)\)$', pat, re.S)
+        if men and mpat:
+            # R26: `for (i, x) in E.enumerate()`: the counter Enumerate keeps is made explicit (incremented when the
+            # element is produced, exactly as Enumerate::next does)
+            new = ('let mut vit_%d = %s; let mut ven_%d: usize = 0; %sloop { match vit_%d.next() { Some(%s) => { let %s = ven_%d; ven_%d += 1; %s }, None => { break; } } }'
+                   % (n, men.group(1), n, label, n, mpat.group(2), mpat.group(1), n, n, body))
+            log.add('R26(enumerate counter made explicit)', '%s loop %d' % (site, n))
+        else:
+            new = ('let mut vit_%d = %s; %sloop { match vit_%d.next() { Some(%s) => %s, None => { break; } } }'
+                   % (n, expr, label, n, pat, body))
         text = text[:start] + new + text[toks[bc].end:]
         log.add('R4(for-desugar)', '%s loop %d' % (site, n))
+    return text
+
+
+def rw_R27_slice_enumerate(text, which, site, log):
+    """for (i, x) in S.iter().enumerate() BODY  (S a slice/array of Copy integers)  ->
+       for i in 0..S.len() { let x = S[i]; BODY }   (x bound by value: std defines `&u8 op u8` as `*a op b`; this Verus
+       panics on bit operators applied to a reference)"""
+    for n in sorted(which, reverse=True):
+        toks, loops = find_loops(text)
+        if n > len(loops):
+            raise LostAnchor('%s: loop %d not found for R27' % (site, n))
+        i = loops[n - 1]
+        if toks[i].text != 'for':
+            raise LostAnchor('%s: loop %d is not a for loop (R27)' % (site, n))
+        j = i + 1
+        while not (toks[j].kind == 'ident' and toks[j].text == 'in'):
+            if toks[j].kind == 'punct' and toks[j].text in '([':
+                j = match_close(toks, j)
+            j += 1
+        pat = text[toks[i + 1].start:toks[j].start].strip()
+        bo = loop_body_open(toks, j)
+        expr = text[toks[j + 1].start:toks[bo].start].strip()
+        m = re.match(r'^(.*)\.iter\(\)\.enumerate\(\)$', expr, re.S)
+        mp = re.match(r'^\(\s*(\w+)\s*,\s*(\w+)\s*\)$', pat)
+        if not m or not mp:
+            raise LostAnchor('%s: loop %d is not `for (i, x) in S.iter().enumerate()` (R27)' % (site, n))
+        new_head = 'for %s in 0..%s.len() ' % (mp.group(1), m.group(1))
+        text = text[:toks[i].start] + new_head + '{ let %s = %s[%s]; ' % (mp.group(2), m.group(1), mp.group(1)) + text[toks[bo].end:]
+        log.add('R27(slice .iter().enumerate() -> index loop)', '%s loop %d' % (site, n))
     return text
 
 
@@ -1055,12 +1093,14 @@ class Unit:
                 if m17:
                     text = rw_R17(text, m17.group(1), site, self.log)
                     continue
-                m = re.match(r'(R4|R12)\(([\d,]+)\)$', r)
+                m = re.match(r'(R4|R12|R27)\(([\d,]+)\)$', r)
                 if not m:
                     raise WeaveError('unknown rewrite ' + r)
                 which = [int(x) for x in m.group(2).split(',')]
                 if m.group(1) == 'R4':
                     text = rw_R4_for_desugar(text, which, site, self.log)
+                elif m.group(1) == 'R27':
+                    text = rw_R27_slice_enumerate(text, which, site, self.log)
                 else:
                     text = rw_R12_break_value(text, which, site, self.log)
         return text
